@@ -140,7 +140,9 @@ class C07(TraceCheck):
     def run_history(self, hist):
         # in every third history the rows handed to the window are restyled versions of values rendered before
         import zlib
-        derive = zlib.crc32(json.dumps(hist, sort_keys=True, default=str).encode()) % 3 == 0
+        crc = zlib.crc32(json.dumps(hist, sort_keys=True, default=str).encode())
+        derive = crc % 3 == 0
+        same = (crc // 3) % 3 == 0          # every third history: one frame object, edited in place between the renders
         from curtsies.window import CursorAwareWindow
         h, w = hist["h"], hist["w"]
         out = winlib.QueryStream(h, w)
@@ -156,8 +158,20 @@ class C07(TraceCheck):
             win.__enter__()
             ev.append({"k": "enter", "toks": enc.lex(out.take()), "reply": out.replies[-1] if out.replies else [0, 0],
                        "top": win.top_usable_row})
+            last_obj = None
             for st in hist["steps"]:
                 arr = winlib.build_array(st["arr"], st.get("kind", "list"), derive=derive)
+                if same and last_obj is not None:
+                    # the application keeps one frame object and edits it in place between renders
+                    from curtsies.formatstringarray import FSArray
+                    if isinstance(last_obj, list) and isinstance(arr, list):
+                        last_obj[:] = arr
+                        arr = last_obj
+                    elif isinstance(last_obj, FSArray) and isinstance(arr, FSArray) and last_obj.height == arr.height and last_obj.width == arr.width:
+                        for i in range(arr.height):
+                            last_obj[i] = arr.rows[i]
+                        arr = last_obj
+                last_obj = arr
                 rec = {"k": "render", "arr": [enc.enc_value(r) for r in arr], "cp": st["cp"], "exc": "", "ret": 0}
                 try:
                     rec["ret"] = win.render_to_terminal(arr, tuple(st["cp"]))
